@@ -22,6 +22,131 @@ EVAL_SCC = ("eval_expression", "apply_procedure", "eval_procedure_call", "apply_
             "eval_tail_expression", "eval_owned_tail_expression", "read_literal")
 
 
+def tail_table(ctx, fb, f, ee, vidx, depth):
+    """Abstract evaluation of the tail evaluator on every nesting of `if` (to `depth`) whose leaves are calls or plain
+    expressions, for every outcome of the tests: a leaf call must come back as a pending TailCall carrying its own operator,
+    operands and the current environment, with nothing but the tests on the path evaluated; a plain leaf is evaluated once.
+    The evaluator's own recursion is followed (inlined), so the verdict does not depend on whether it recurses or loops."""
+    from . import absint
+    from .c01 import Tok, _contains
+    name = f.name.rsplit("::", 1)[-1]
+    SYM, CALL, COND = vidx["Symbol"], vidx["ProcedureCall"], vidx["Conditional"]
+    envtok = Tok("env", "env")
+
+    def sym(tag):
+        return [absint.Enum(SYM, [tag]), absint.UNKNOWN]
+
+    def call(tag):
+        return [absint.Enum(CALL, [sym("op-" + tag), Tok("args", tag)]), absint.UNKNOWN]
+
+    def tag_of(x):
+        if isinstance(x, list) and x and isinstance(x[0], absint.Enum):
+            if x[0].variant == SYM:
+                return x[0].fields[0]
+            if x[0].variant == CALL:
+                return "call:" + str(tag_of(x[0].fields[0]))
+            if x[0].variant == COND:
+                return "if:" + str(tag_of(x[0].fields[0][0]))
+        return None
+
+    def shapes(d, pfx):
+        """(expression, [(path truths, leaf tag, leaf kind)])"""
+        out = [(call(pfx), [({}, pfx, "call")]), (sym(pfx), [({}, pfx, "plain")])]
+        if d > 0:
+            subs_c = shapes(d - 1, pfx + "c")
+            subs_a = shapes(d - 1, pfx + "a")
+            for ce, cl in subs_c:
+                for ae, al in subs_a[:2] if d > 1 else subs_a:
+                    t = "t" + pfx
+                    e = [absint.Enum(COND, [[sym(t), ce, absint.Enum(1, [ae])]]), absint.UNKNOWN]
+                    leaves = [(dict(tr, **{t: True}), tg, k) for tr, tg, k in cl] + [(dict(tr, **{t: False}), tg, k) for tr, tg, k in al]
+                    out.append((e, leaves))
+                # one-armed if
+                t = "t" + pfx
+                e = [absint.Enum(COND, [[sym(t), ce, absint.Enum(0, [])]]), absint.UNKNOWN]
+                out.append((e, [(dict(tr, **{t: True}), tg, k) for tr, tg, k in cl] + [({t: False}, None, "void")]))
+        return out
+
+    def run(expr, truths, events, budget):
+        if budget[0] <= 0:
+            raise absint.Loop("recursion budget")
+        budget[0] -= 1
+
+        def oracle(ff, bb, tt, env):
+            c = callee(tt) or ""
+            a0 = absint.operand(env, tt["args"][0]) if tt["args"] else None
+            if c == f.name:
+                a1 = absint.operand(env, tt["args"][1]) if len(tt["args"]) > 1 else None
+                if a1 is not envtok:
+                    events.append(("env-changed", tag_of(a0)))
+                sub = run(a0, truths, events, budget)
+                r = absint.Enum(0, [sub])
+                r.name = "Ok"
+                return r
+            if c == ee.name or c.startswith(INTERP + "eval_") or c == INTERP + "apply_procedure":
+                events.append((c.rsplit("::", 1)[-1], tag_of(a0)))
+                r = absint.Enum(0, [Tok("value-of", tag_of(a0))])
+                r.name = "Ok"
+                return r
+            if c.endswith("Value::as_boolean"):
+                return truths.get(a0.tag, absint.UNKNOWN) if isinstance(a0, Tok) else absint.UNKNOWN
+            if c.endswith("std::ops::Try>::branch"):
+                return absint.Enum(a0.variant, list(a0.fields)) if isinstance(a0, absint.Enum) else absint.UNKNOWN
+            if callee_matches(tt, "std::convert::AsRef>::as_ref", "std::ops::Deref>::deref", "std::borrow::Borrow>::borrow",
+                              "<std::rc::Rc as std::clone::Clone>::clone", "extract_data"):
+                return a0
+            return None
+        kind, b, env = absint.run_fragment(f, 0, {1: expr, 2: envtok}, oracle=oracle, max_visits=8)
+        res = env.get(0)
+        # unwrap Ok(..)
+        if isinstance(res, absint.Enum) and getattr(res, "name", None) == "Ok" and res.fields:
+            return res.fields[0]
+        return res
+    n = 0
+    bad = {}
+    for expr, leaves in shapes(depth, ""):
+        for truths, leaf, kind in leaves:
+            n += 1
+            events = []
+            try:
+                res = run(expr, truths, events, [40])
+            except (absint.Stuck, absint.Loop) as e:
+                bad.setdefault("stuck", []).append("%s under %s: %s" % (tag_of(expr), truths, e))
+                continue
+            tests = sorted(truths)
+            evs = [x for x in events]
+            want_events = {("eval_expression", t) for t in tests}
+            extra = [x for x in evs if x not in want_events and not (kind == "plain" and x == ("eval_expression", leaf))]
+            missing = [t for t in tests if ("eval_expression", t) not in evs]
+            if kind == "call":
+                is_tc = _contains(res, lambda v: isinstance(v, absint.Enum) and getattr(v, "name", None) == "TailCall") or \
+                    _contains(res, lambda v: isinstance(v, absint.Enum) and (getattr(v, "adt", "") or "").endswith("TailCall"))
+                carries = _contains(res, lambda v: isinstance(v, Tok) and v.kind == "args" and v.tag == leaf) and \
+                    _contains(res, lambda v: v is envtok) and \
+                    _contains(res, lambda v: isinstance(v, absint.Enum) and v.variant == SYM and v.fields == ["op-" + leaf])
+                if extra or not is_tc or not carries:
+                    why = ("the call is evaluated on the Rust stack (%s)" % extra) if extra else (
+                        "no pending TailCall is returned" if not is_tc else "the pending call does not carry its own operator, operands and the current environment")
+                    bad.setdefault("call-leaf", []).append("call `%s` under %s: %s" % (leaf, truths, why))
+            elif kind == "plain":
+                okv = _contains(res, lambda v: isinstance(v, Tok) and v.kind == "value-of" and v.tag == leaf)
+                if extra or not okv or ("eval_expression", leaf) not in evs:
+                    bad.setdefault("plain-leaf", []).append("leaf `%s` under %s: evaluations %s result %s" % (leaf, truths, evs, repr(res)[:80]))
+            else:
+                if extra or not _contains(res, lambda v: isinstance(v, absint.Enum) and getattr(v, "name", None) == "Void"):
+                    bad.setdefault("void-leaf", []).append("one-armed if under %s: evaluations %s result %s" % (truths, evs, repr(res)[:80]))
+            if missing:
+                bad.setdefault("tests", []).append("tests %s not evaluated under %s" % (missing, truths))
+    ctx.inst("C02-tail-returns", name + "/if-nesting-table", {"depth": depth, "paths": n, "bad_classes": sorted(bad)})
+    # only calls matter for stack behaviour; how plain leaves and tests are evaluated is C01's business (C01-truthiness)
+    bad = {k: v for k, v in bad.items() if k in ("call-leaf", "stuck")}
+    ctx.oblige(not bad)
+    for k, items in sorted(bad.items()):
+        ctx.report("C02-tail-returns", "%s/%s" % (name, k), "%d path(s) through nested tail `if`s: e.g. %s" % (len(items), items[0]), where_of(f))
+    if n < 20:
+        ctx.report("C02-tail-returns", name + "/floor", "only %d paths analysed" % n, where_of(f))
+
+
 def run(ctx):
     fb = ctx.fb()
     ctx.trust("rustc nightly MIR and callee resolution; indirect calls of builtin bodies are resolved to the functions "
@@ -45,54 +170,8 @@ def run(ctx):
         if f.name not in live:
             ctx.note("%s is not reachable from apply_procedure (dead code on this tree): not analysed" % name)
             continue
-        regs = []
-        for sb, place, a, targets, other in mir.discriminant_switches(f, "ExpressionBody"):
-            if vidx["ProcedureCall"] in targets and targets[vidx["ProcedureCall"]] != other:
-                regs.append(("call", mir.dominated_region(f, targets[vidx["ProcedureCall"]])))
-            if vidx["Conditional"] in targets and targets[vidx["Conditional"]] != other:
-                regs.append(("cond", mir.dominated_region(f, targets[vidx["Conditional"]])))
-        call_regs = [r for k, r in regs if k == "call"]
-        cond_regs = [r for k, r in regs if k == "cond"]
-        # keep the innermost arms (the owned variant matches twice; the outer arm contains the inner match)
-        call_reg = min(call_regs, key=len) if call_regs else None
-        cond_reg = min(cond_regs, key=len) if cond_regs else None
-        if call_reg is None or cond_reg is None:
-            ctx.report("C02-tail-returns", name + "/arms", "no ProcedureCall / Conditional arm found in the tail evaluator", where_of(f))
-            continue
         n_te += 1
-        bad = [callee(t) for _, t in f.calls(call_reg) if callee(t) in scc]
-        tc = [v for _, _, _, a, v in mir.aggregates(f, call_reg) if a.endswith("TailExpressionResult") or a.endswith("TailCall")]
-        ctx.inst("C02-tail-returns", name + "/call-arm", {"evaluator_calls": bad, "builds": tc})
-        if bad:
-            ctx.report("C02-tail-returns", name + "/call-arm/evaluates", "a tail call is evaluated on the Rust stack: the "
-                       "ProcedureCall arm calls %s" % bad, where_of(f))
-        if "TailCall" not in tc:
-            ctx.report("C02-tail-returns", name + "/call-arm/no-tailcall", "the ProcedureCall arm does not build a TailCall", where_of(f))
-        # the TailCall carries operator, operands and the *current* environment
-        for b, i, s, a, v in mir.aggregates(f, call_reg, "TailCall"):
-            p = Prov(f)
-            envop = s["rv"]["ops"][2]
-            if p.arg_roots(envop) != {2}:
-                ctx.report("C02-tail-returns", name + "/call-arm/env", "the pending tail call does not carry the current "
-                           "environment", where_of(f, span=s["span"]))
-        # conditional arm
-        from .c01 import field_path, _through_deref
-        for b, t in f.calls(cond_reg):
-            c = callee(t)
-            if c == ee.name:
-                r, pth = field_path(f, _through_deref(f, t["args"][0]))
-                comp = pth[-1] if pth else None
-                ctx.inst("C02-tail-returns", name + "/cond-arm/eval_expression", {"component": comp})
-                if comp != 0:
-                    ctx.report("C02-tail-returns", name + "/cond-arm/branch-evaluated", "a branch of a tail `if` (component %s) is "
-                               "evaluated with eval_expression instead of the tail evaluator" % comp, where_of(f, t))
-            elif c in scc and c != f.name:
-                ctx.report("C02-tail-returns", name + "/cond-arm/" + c.rsplit("::", 1)[-1], "the Conditional arm calls %s" % c, where_of(f, t))
-        rec = [(b, t) for b, t in f.calls(cond_reg) if callee(t) == f.name]
-        ctx.inst("C02-tail-returns", name + "/cond-arm/recursion", len(rec))
-        if len(rec) != 2:
-            ctx.report("C02-tail-returns", name + "/cond-arm/branches", "both branches must be handed to the tail evaluator "
-                       "(found %d recursive calls)" % len(rec), where_of(f))
+        tail_table(ctx, fb, f, ee, vidx, depth=3 if ctx.tier == "thorough" else 2)
     if n_te < 1:
         ctx.report("C02-tail-returns", "floor", "no tail evaluator analysed")
     # apply_scheme_procedure hands the last expression to the tail evaluator and returns its result unchanged
@@ -162,6 +241,18 @@ def run(ctx):
                 if s["k"] == "assign" and s["place"]["proj"] and any(e["k"] == "field" for e in s["place"]["proj"]) \
                         and s["place"]["local"] <= f.arg_count and "LexicalScope" in str(s["rv"]):
                     ctx.report("C02-frames-dropped", f.name + "/stores-frame", "a frame is stored into a parameter's field", where_of(f, span=s["span"]))
+
+    # ------------------------------------------------------------------ C02-iteration-is-application
+    ctx.rule("C02-iteration-is-application", "a turn of the trampoline is an ordinary application: the callee's body runs in a "
+             "frame created in that turn as a child of the applied closure's frame, never in a frame carried over from an "
+             "earlier turn (necessary for `the loop computes the same result as the bounded iteration`: closures made in "
+             "turn i must keep turn i's bindings)")
+    from . import frames
+    fr = frames.analyse(fb)
+    ctx.inst("C02-iteration-is-application", "frame-provenance", {"case": fr.case, "created_in": sorted(fr.makers)})
+    ctx.oblige(not fr.problems)
+    for key, msg, where in fr.problems:
+        ctx.report("C02-iteration-is-application", key, msg, where)
 
     # ------------------------------------------------------------------ C02-no-stack-cycle
     ctx.rule("C02-no-stack-cycle", "the evaluator recurses only through non-tail sub-expressions (edges into eval_expression)")
